@@ -20,6 +20,8 @@ def run(ctx):
     ctx.guarded('R06a', HW, lambda: r06a(ctx))
     ctx.guarded('R06b', CORE, lambda: r06b(ctx))
     ctx.guarded('R06c', 'range hash', lambda: r06c(ctx))
+    ctx.rule('R06d', 'hash functions carry no state across calls: with_salt is the one-shot keyed hash of its two parameters; the only thread-local in the hash crates is the scratch buffer of hash_node_sequence, cleared before every use')
+    ctx.guarded('R06d', 'purity', lambda: r06d(ctx))
 
 
 def r06a(ctx):
@@ -111,3 +113,39 @@ def r06c(ctx):
         if len(rr) == 1 and flow.mentions(rr[0], lambda z: z[0] == 'call' and sg(z[1]).endswith('as_bytes')) and flow.mentions(rr[0], lambda z: z[0] == 'param'):
             okc = True
     ctx.check(okc, 'R06c', a.path, 'bytes', '-', 'each element contributes all bytes of its hash')
+
+
+def r06d(ctx):
+    from . import rules_c03 as c03
+    from .rules_c11 import _Alias
+    c03.r03b(_Alias(ctx, 'R03b', 'R06d'))
+    F = ctx.F
+    users = set()
+    for p, b in F.bodies.items():
+        if b['crate'] not in ('merklehash', 'merkledb') or '::tests' in p or 'merkledb_debug' in p:
+            continue
+        a = an(b)
+        if any('thread::local::LocalKey' in a.term(c).get('fn', '') for c in a.calls()):
+            users.add(p)
+        if any(s.get('r', {}).get('k') == 'tls' for bb in b['blocks'] for s in bb['s']) and '::{constant#' not in p:
+            users.add(p)
+    exp = {'merkledb::merklenode::hash_node_sequence'}
+    ctx.check(users == exp, 'R06d', 'merklehash+merkledb', 'thread-local users', '-', 'the only function of the hash crates that touches thread-local state is hash_node_sequence (scratch buffer)',
+              'unreviewed cross-call state in a hash function: thread-local access in %s — a hash must be a pure function of its inputs' % sorted(users ^ exp))
+    # scratch idiom: the buffer is cleared before it is written and hashed
+    h = F.body('merkledb::merklenode::hash_node_sequence')
+    okc = False
+    for ch in F.children(h):
+        ac = an(ch)
+        clr = ac.calls('alloc::string::String::clear') + ac.calls('alloc::vec::Vec::clear')
+        hc = ac.calls(CORE)
+        if clr and hc and all(ac.cfg.must_pass(x, via_blocks=clr) for x in hc) and not c05_loop(ac, clr[0]):
+            wr = [c for c in ac.calls() if sg(ac.term(c).get('fn', '')).endswith('Write::write_fmt')]
+            okc = all(ac.cfg.must_pass(w, via_blocks=clr) for w in wr) and bool(wr)
+    ctx.check(okc, 'R06d', h['qpath'], 'scratch cleared', '-', 'the thread-local buffer is cleared before it is filled and hashed (no bytes of an earlier call survive)',
+              'the thread-local buffer of hash_node_sequence is not cleared before use: the hash depends on earlier calls')
+
+
+def c05_loop(a, b):
+    from . import rules_c05 as c05
+    return c05.loop_of(a, b) is not None
